@@ -26,7 +26,11 @@ where
   ) -> Subscription<'a> {
     let unsub_observer = observer.clone();
     let issub_observer = observer.clone();
-    self.source.call(observer.clone());
+    // an observer that has already been unsubscribed (its pipeline ended while
+    // it was still being assembled) must not subscribe the source any more
+    if observer.is_subscribed() {
+      self.source.call(observer.clone());
+    }
     Subscription::new(
       move || {
         unsub_observer.unsubscribe();
